@@ -139,7 +139,7 @@ class Plain(Task):
         n = _tick(self)
         self.logger.info(f'tok {n} first')
         self.save_to_run_info({'r': n, 'i': 0})
-        self.logger.warning(f'tok {n} second')
+        self.logger.info(f'tok {n} second')
         self.save_to_run_info(f'rec {n}')
         return {'n': n}
 
